@@ -118,13 +118,49 @@ def _ubis(name, seed):
     return out
 
 
+def border_ubis(ops, cell, U0, nmax=4):
+    """orientations a hair (2e-5 degrees) away from the border between two equivalent settings: the two best members of the orbit differ in
+    trace by 1e-8 .. 5e-6 - far above rounding, so the reduction is still decided, but below any 'tolerance' one might be tempted to add"""
+    B = O.cell_to_B(cell)
+
+    def top(theta):
+        ubi = np.linalg.inv(np.dot(np.dot(O.rotation_from_axis_angle((0, 0, 1), theta), U0), B))
+        tr = np.array([np.trace(np.dot(o, ubi)) for o in ops])
+        order = np.argsort(tr)[::-1]
+        return ubi, int(order[0]), float(tr[order[0]] - tr[order[1]])
+    out = []
+    if len(ops) < 2:
+        return out
+    prev = top(0.0)
+    for th in range(1, 361):
+        cur = top(float(th))
+        if cur[1] != prev[1]:
+            lo, hi, a = th - 1.0, float(th), prev[1]
+            for _ in range(60):
+                mid = 0.5 * (lo + hi)
+                if top(mid)[1] == a:
+                    lo = mid
+                else:
+                    hi = mid
+            for d in (2e-5, -2e-5):
+                ubi, _, gap = top(hi + d)
+                if 1e-8 < gap < 5e-6:
+                    out.append((cell, ubi))
+            if len(out) >= nmax:
+                break
+        prev = cur
+    return out
+
+
 def _run_uniq_u(desc):
     _, name = desc
     from ImageD11 import sym_u, refinegrains, grain
     sh = Shard()
     grp = getattr(sym_u, name)()
     ops = [np.asarray(o, float) for o in grp.group]
-    for cell, ubi in _ubis(name, seed_of()):
+    near = border_ubis(ops, GROUPS[name][1][0], O.generic_rotations(seed_of())[2])
+    sh.count("orientations_next_to_a_setting_border", len(near))
+    for cell, ubi in _ubis(name, seed_of()) + near:
         orbit = [np.dot(o, ubi) for o in ops]
         traces = sorted((np.trace(x) for x in orbit), reverse=True)
         case0 = {"kind": "uniq_u", "group": name, "cell": cell, "ubi": ubi}
